@@ -11,8 +11,15 @@ _GROUP1 = [["true"], ["one"], ["onef"]]                           # pairwise equ
 _SINGLES = [["none"], ["estr"], ["etuple"], ["efset"], ["ebytes"], ["str", "None"], ["str", "0"], ["nan_str"]]
 
 
+NAN = float("nan")            # a NaN label is a legal hashable node as long as it is the same object (found by identity)
+
+
 def mk(spec):
     k = spec[0]
+    if k == "nan":
+        return NAN
+    if k == "fl":                        # float extremes: inf, -inf, +-1.797e308, 5e-324 (built fresh; equal by value)
+        return float(spec[1])
     if k == "none":
         return None
     if k == "false":
@@ -56,12 +63,31 @@ def mk(spec):
     raise ValueError(spec)
 
 
+_EXTREMES = [["fl", "inf"], ["fl", "-inf"], ["fl", "1.7976931348623157e308"], ["fl", "-1.7976931348623157e308"], ["fl", "5e-324"],
+             ["fl", "-5e-324"], ["nan"]]
+
+
+def mk_alt(spec):
+    """An object EQUAL to mk(spec) (same hash) but of another numeric type where one exists: 33 <-> 33.0, 0 <-> False <-> -0.0."""
+    k = spec[0]
+    if k == "int" and abs(spec[1]) < 2 ** 53:
+        return float(spec[1])
+    if k == "float" and float(spec[1]).is_integer():
+        return int(spec[1])
+    if k in ("zero", "false", "zerof", "negzerof"):
+        return {"false": 0, "zero": 0.0, "zerof": False, "negzerof": 0}[k]
+    if k in ("one", "true", "onef"):
+        return {"true": 1, "one": 1.0, "onef": True}[k]
+    return mk(spec)
+
+
 def pool_labels(rng, ids):
     """Injective random label specs for the nat ids `ids`: mixed types, falsy values, None, huge ints, fresh objects."""
     specs = []
     specs += [rng.choice(_GROUP0)] if rng.random() < 0.7 else []
     specs += [rng.choice(_GROUP1)] if rng.random() < 0.4 else []
     specs += [s for s in _SINGLES if rng.random() < 0.45]
+    specs += [s for s in _EXTREMES if rng.random() < 0.2]
     if ["none"] not in specs and rng.random() < 0.5:
         specs.append(["none"])
     rng.shuffle(specs)
@@ -115,8 +141,8 @@ def labeler(case):
         spec = {i: s for i, s in case["labels"]}
         table = {mk(s): i for i, s in spec.items()}
 
-        def f(i):
-            return mk(spec[i])
+        def f(i, alt=False):
+            return mk_alt(spec[i]) if alt else mk(spec[i])
     elif mode == "str":
         def f(i):
             return "".join(["n", str(i)])
@@ -188,7 +214,7 @@ def big_cases(rng, thorough=False):
     """Structured instances crossing 17/65/257/801/1025/2049/65537 (depth, in-degree, multiplicity, queue length, component
     count / size).  expect = answers known by construction (also judged by the linear-time oracle below)."""
     out = []
-    deep = [802, rng.randint(803, 1000), 1025, rng.randint(1100, 1500), rng.choice([2049, 3000]), 5000] + ([20000] if thorough else [])
+    deep = [802, rng.randint(803, 1000), 1025, rng.randint(1100, 1500), rng.choice([2049, 3000]), 5000, 10007] + ([20000, 100003] if thorough else [])
     mid = [17, 65, 257]
     for n in mid + deep:
         order = rng.choice(["path", "path", "rot", "rev", "shuffle"]) if n in mid else rng.choice(["path", "path", "rot"])
@@ -249,6 +275,23 @@ def big_cases(rng, thorough=False):
         adj[m + 1] = [m]
         adj[m] = [m + 2]
         out.append(_case(list(range(m + 3)), adj, f"star_in_cycle({m})", 4, {"n_comps": m + 1, "cyclic": True, "max_comp": 3}))
+    # class W (work volume): loops driven far beyond 2^12 / 10^4 / 10^5 / 2^20 iterations at small or shallow inputs
+    W = (1 << 20) + rng.randint(1, 9)
+    for k in [4099, 100003] + ([W] if thorough else []):
+        # flower: 0 -> every leaf -> 0 : one component, Tarjan's stack holds k+1 nodes at recursion depth 2, the pop loop runs k+1 times
+        adj = {0: list(range(1, k + 1))}
+        adj.update({i: [0] for i in range(1, k + 1)})
+        out.append(_case(list(range(k + 1)), adj, f"flower({k})", 3, {"n_comps": 1, "cyclic": True, "max_comp": k + 1}))
+    # 2^20+ parallel edges: one neighbour loop / one in-degree counter / one adjacency list crosses 2^20
+    out.append(_case([0, 1, 2], {0: [2] * W + [1], 1: [2]}, f"parallel_diamond({W})", 3,
+                     {"n_comps": 3, "cyclic": False, "max_comp": 1, "order": [0, 1, 2]}))
+    out.append(_case([1, 0], {0: [1] * W, 1: [0] * 3}, f"parallel_cycle({W})", 2, {"n_comps": 1, "cyclic": True, "max_comp": 2}))
+    k = 100003
+    adj = {i: [k] for i in range(k)}
+    adj[k + 2] = [k + 1]
+    adj[k + 1] = [k]
+    out.append(_case(list(range(k + 3)), adj, f"star_in_late({k})", 3, {"n_comps": k + 3, "cyclic": False, "max_comp": 1}))
+    out.append(_case(rng.sample(range(10007), 10007), {}, "isolated(10007)", 1, {"n_comps": 10007, "cyclic": False, "max_comp": 1}))
     k = rng.choice([1025, 2049])
     out.append(_case(rng.sample(range(k), k), {}, f"isolated({k})", 1, {"n_comps": k, "cyclic": False, "max_comp": 1}))
     # layered complete DAG: width w, l layers (w*w*(l-1) >= 2049 edges)
@@ -264,7 +307,8 @@ def big_cases(rng, thorough=False):
     # vary labels / iterables on the large ones too
     for c in out:
         n = len(c["nodes"])
-        c["label"] = rng.choice(["int", "int", "str", "bigint", "tuple"])
+        heavy = sum(len(ws) for _, ws in c["adj"]) > 300000 or n > 50000
+        c["label"] = rng.choice(["int", "int", "str", "bigint", "tuple"]) if not heavy else "int"
         c["nodes_kind"] = rng.choice(["list", "tuple", "gen", "iter"])
         c["nbr_kind"] = rng.choice(["list", "fresh", "tuple", "gen"])
         c["edges_variant"] = c["label"] == "int" and c["nodes"] == list(range(n)) and all(u < n for u, _ in c["adj"]) and rng.random() < 0.6
@@ -329,6 +373,24 @@ def big_judge(case, outs):
     cyclic = ncls < len(ns) or any(u in ws for u, ws in succ.items())
     exp = case.get("expect")
     bad = []
+    indeg, sizes = {}, {}
+    for u, ws in succ.items():
+        for w in ws:
+            indeg[w] = indeg.get(w, 0) + 1
+    for k in cls.values():
+        sizes[k] = sizes.get(k, 0) + 1
+    fam = case.get("family", "")
+    case["_work"] = {
+        "tarjan_nodes_indexed": len(ns), "tarjan_edges_scanned": sum(len(ws) for _, ws in case["adj"]),
+        "tarjan_neighbours_of_one_node": max([len(ws) for _, ws in case["adj"]] or [0]),
+        "tarjan_recursion_depth": len(ns) if fam.startswith(("cycle(", "chain(")) and fam.endswith(",path)") else 0,
+        "tarjan_stack_size": max(sizes.values() or [0]), "tarjan_component_pop_loop": max(sizes.values() or [0]), "components": ncls,
+        "kahn_nodes_output": 0 if cyclic else len(ns), "kahn_in_degree_of_one_node": max(indeg.values() or [0]),
+        "kahn_initial_queue": sum(1 for v in ns if v not in indeg),
+        "kahn_decrements": 0 if cyclic else sum(len(ws) for ws in succ.values()),
+        "condense_edges_scanned": sum(len(ws) for ws in succ.values()),
+        "condense_successors_of_one_component": max([len({cls[w] for w in ws if cls[w] != cls[u]}) for u, ws in succ.items()] or [0]),
+    }
     if exp and (exp["n_comps"] != ncls or exp["cyclic"] != cyclic):
         raise AssertionError(f"harness bug: construction of {case.get('family')} expects {exp}, reference says {ncls} classes cyclic={cyclic}")
 
@@ -417,6 +479,212 @@ def big_judge(case, outs):
             if d:
                 bad.append(("cond", "condensed graph: " + d))
     return bad
+
+
+# ------------------------------------------------------------------------------------------------ W : > 2^20 nodes, lean runner
+def huge_cases(rng, thorough=False):
+    """N = 2^20 + a few nodes, almost all isolated; a sparse random structure on ~14 special nodes sitting at the beginning, around index
+    2^20 and at the very end of the node order (edges late -> early, early -> late, small cycles among late nodes, outside neighbours).
+    Every linear-time loop (DFS index, component count, node -> component map, Kahn's queue) crosses 2^20 at recursion depth < 20."""
+    out = []
+    for t in range(3 if thorough else 1):
+        N = (1 << 20) + rng.randint(14, 60)
+        order = rng.choice(["asc", "asc", "desc"])
+        lab = (lambda p: p) if order == "asc" else (lambda p: N - 1 - p)      # position in the visiting order -> label
+        first = [lab(p) for p in rng.sample(range(0, 12), 4)]
+        mid = [lab(p) for p in rng.sample(range((1 << 20) - 4, (1 << 20) + 1), 3)]
+        last = [lab(p) for p in rng.sample(range((1 << 20) + 2, N), 7)]       # visited (and indexed) after 2^20 + 1 other nodes:
+        adj = {}                                                              # they receive edges from last nodes only
+        for _ in range(rng.randint(5, 9)):                                    # among the early part
+            adj.setdefault(rng.choice(first + mid), []).append(rng.choice(first + mid))
+        for _ in range(rng.randint(9, 16)):                                   # from the last nodes to everything (completed or open)
+            w = rng.choice(first + mid + last) if rng.random() < 0.9 else N + rng.randint(0, 5)
+            adj.setdefault(rng.choice(last), []).append(w)
+        a, b, c, d = rng.sample(last, 4)                                      # a 3-cycle among last nodes pointing back to completed nodes,
+        adj.setdefault(a, []).append(b)                                       # and one more last node pointing to the cycle
+        adj.setdefault(b, []).append(c)
+        adj.setdefault(c, []).extend([a, rng.choice(first)])
+        adj.setdefault(d, []).extend([a, rng.choice(mid)])
+        if t == 1 or (t == 0 and rng.random() < 0.3):                  # an acyclic variant so that topological_sort has to output 2^20+ nodes
+            rank = {v: i for i, v in enumerate(first + mid + last)}
+            adj = {u: [w for w in ws if w >= N or rank[w] < rank[u]] for u, ws in adj.items()}
+        funcs = ["scc", "topo", "cond"] + (["scc_e", "topo_e"] if thorough else [])
+        out.append({"huge": True, "N": N, "order": order, "nodes_kind": rng.choice(["range", "list", "gen"]),
+                    "adj": [[u, ws] for u, ws in sorted(adj.items()) if ws], "funcs": funcs, "kind": "huge", "family": f"sparse_on_{N}_nodes",
+                    "nodes": [], "label": "int", "edges_variant": False})
+    if thorough:
+        M = (1 << 20) // 3 + 7
+        out.append({"huge": True, "N": 3 * M, "order": "asc", "nodes_kind": "range", "rule": "triangles", "adj": [], "funcs": ["scc", "topo", "cond"],
+                    "kind": "huge", "family": f"{M}_disjoint_3_cycles", "nodes": [], "label": "int", "edges_variant": False})
+    return out
+
+
+def run_huge(case):
+    """Run + judge inside the worker (O(N), only a verdict travels back).  Reference: naive reachability among the special nodes; every
+    other node is a singleton class with no edges."""
+    import gc
+
+    from harness.core import guarded
+    from solvor.scc import (condense, strongly_connected_components, strongly_connected_components_edges,
+                            topological_sort, topological_sort_edges)
+
+    N = case["N"]
+    tri = case.get("rule") == "triangles"
+    adj = {u: tuple(ws) for u, ws in case["adj"]}
+    if tri:
+        def nb(v):
+            return (v + 1,) if v % 3 < 2 else (v - 2,)
+    else:
+        def nb(v):
+            return adj.get(v, ())
+
+    def nodes():
+        base = range(N) if case["order"] == "asc" else range(N - 1, -1, -1)
+        k = case["nodes_kind"]
+        return base if k == "range" else (list(base) if k == "list" else (v for v in base))
+
+    S = set(adj) | {w for ws in adj.values() for w in ws if w < N}
+    succ = {u: [w for w in adj.get(u, ()) if w < N] for u in S}
+    reach = {}
+    for s0 in S:
+        seen, todo = {s0}, [s0]
+        while todo:
+            for w in succ[todo.pop()]:
+                if w not in seen:
+                    seen.add(w)
+                    todo.append(w)
+        reach[s0] = seen
+    want = {frozenset(w for w in reach[v] if v in reach[w]) for v in S}
+    clsof = {v: c for c in want for v in c}
+    want_count = (N // 3) if tri else len(want) + N - len(S)
+    cyclic = tri or any(len(c) > 1 for c in want) or any(u in ws for u, ws in succ.items())
+    want_edges = {}
+    for u, ws in succ.items():
+        for w in ws:
+            if clsof[u] != clsof[w]:
+                want_edges.setdefault(clsof[u], set()).add(clsof[w])
+    bad, calls = [], 0
+
+    def is_class(c):
+        if tri:
+            return len(c) == 3 and len({x // 3 for x in c}) == 1
+        return (len(c) == 1 and next(iter(c)) not in S) or frozenset(c) in want
+
+    def cover(groups, what):
+        seen, pos = bytearray(N), {}
+        for i, c in enumerate(groups):
+            if len(c) == 0:
+                return f"{what}: empty component", pos
+            for x in c:
+                if not isinstance(x, int) or isinstance(x, bool) or not 0 <= x < N:
+                    return f"{what}: {x!r} is not a node", pos
+                if seen[x]:
+                    return f"{what}: node {x} listed twice", pos
+                seen[x] = 1
+                if x in S:
+                    pos[x] = i
+            if not is_class(c):
+                return f"{what}: {sorted(c)[:6]} is not a class of mutual reachability", pos
+        miss = seen.count(0)
+        if miss:
+            return f"{what}: {miss} of the {N} nodes are in no component, e.g. node {seen.index(0)}", pos
+        if len(groups) != want_count:
+            return f"{what}: {len(groups)} components, mutual reachability has {want_count} classes", pos
+        return None, pos
+
+    def call(fn, *a, **kw):
+        nonlocal calls
+        calls += 1
+        return guarded(fn, *a, timeout=180, **kw)
+
+    for which in case["funcs"]:
+        gc.collect()
+        if which in ("scc", "scc_e"):
+            res = call(strongly_connected_components, nodes(), nb) if which == "scc" else \
+                call(strongly_connected_components_edges, N, [(u, w) for u, ws in case["adj"] for w in ws if w < N], backend="python")
+            if res[0] != "ok":
+                bad.append((which, f"raised {res[1:]}"))
+                continue
+            r = res[1]
+            d, pos = cover(r.solution, "components")
+            if not d and r.objective != len(r.solution):
+                d = f"objective {r.objective} != {len(r.solution)} components"
+            if not d:
+                e = next(((u, w) for u, ws in succ.items() for w in ws if pos[u] < pos[w]), None)
+                d = f"not sinks-first: edge {e[0]}->{e[1]} goes from component {pos[e[0]]} to the later component {pos[e[1]]}" if e else None
+            if d:
+                bad.append((which, d))
+        elif which in ("topo", "topo_e"):
+            res = call(topological_sort, nodes(), nb) if which == "topo" else \
+                call(topological_sort_edges, N, [(u, w) for u, ws in case["adj"] for w in ws if w < N], backend="python")
+            if res[0] != "ok":
+                bad.append((which, f"raised {res[1:]}"))
+                continue
+            r = res[1]
+            if cyclic:
+                if r.status.name != "INFEASIBLE" or r.solution is not None:
+                    bad.append((which, f"graph has a cycle but status={r.status.name}"))
+                if tri or which != "topo":
+                    continue
+                # the same instance without its back edges (an edge is kept iff it leads to a special node of smaller rank): Kahn's loop
+                # now has to output all N nodes
+                rank = {v: i for i, v in enumerate(sorted(S))}
+                adj_a = {u: tuple(w for w in ws if w < N and rank[w] < rank[u]) for u, ws in adj.items()}
+                res = call(topological_sort, nodes(), lambda v: adj_a.get(v, ()))
+                if res[0] != "ok":
+                    bad.append((which, f"(back edges removed: {adj_a}) raised {res[1:]}"))
+                    continue
+                r = res[1]
+                if r.status.name != "OPTIMAL" or r.solution is None or len(r.solution) != N:
+                    bad.append((which, f"(back edges removed: neighbours {adj_a}) acyclic graph but status={r.status.name}, "
+                                       f"{0 if r.solution is None else len(r.solution)} of {N} nodes in the order"))
+                    continue
+                seen, pos = bytearray(N), {}
+                for i, x in enumerate(r.solution):
+                    if not isinstance(x, int) or not 0 <= x < N or seen[x]:
+                        bad.append((which, f"(back edges removed) the order is not a permutation of the nodes (entry {x!r})"))
+                        break
+                    seen[x] = 1
+                    if x in S:
+                        pos[x] = i
+                else:
+                    e = next(((u, w) for u, ws in adj_a.items() for w in ws if not pos[u] < pos[w]), None)
+                    if e:
+                        bad.append((which, f"(back edges removed: neighbours {adj_a}) edge {e[0]}->{e[1]} points backward in the returned order"))
+                continue
+            if r.status.name != "OPTIMAL" or r.solution is None:
+                bad.append((which, f"acyclic graph but status={r.status.name}"))
+                continue
+            d, pos = cover([[x] for x in r.solution], "order") if len(r.solution) == N else (f"order has {len(r.solution)} entries for {N} nodes", {})
+            if not d:
+                e = next(((u, w) for u, ws in succ.items() for w in ws if not pos[u] < pos[w]), None)
+                d = f"edge {e[0]}->{e[1]} points backward in the returned order" if e else None
+            if d:
+                bad.append((which, d))
+        else:
+            res = call(condense, nodes(), nb)
+            if res[0] != "ok":
+                bad.append((which, f"raised {res[1:]}"))
+                continue
+            cn, adjc = res[1].solution
+            d, _ = cover(cn, "condensed nodes")
+            if not d and len(adjc) != len(cn):
+                d = f"adjacency has {len(adjc)} keys for {len(cn)} condensed nodes"
+            if not d:
+                tot = sum(len(v) for v in adjc.values())
+                if tot != sum(len(v) for v in want_edges.values()):
+                    d = f"{tot} condensed edges, expected {sum(len(v) for v in want_edges.values())}"
+                else:
+                    for c, ws in want_edges.items():
+                        if set(adjc.get(c, ())) != ws:
+                            d = f"condensed node {sorted(c)}: successors {[sorted(x) for x in adjc.get(c, ())][:4]}, expected {[sorted(x) for x in ws][:4]}"
+                            break
+            if d:
+                bad.append((which, d))
+        res = r = None
+    work = {"tarjan_nodes_indexed": N, "components": want_count, "condense_node_to_component_entries": N,
+            "kahn_nodes_output": 0 if cyclic else N, "kahn_initial_queue": N - len({w for ws in succ.values() for w in ws}) if not tri else 0}
+    return {"huge": True, "bad": bad, "work": work, "calls": calls}
 
 
 # ------------------------------------------------------------------------------------------------ H : instrumented reference port
